@@ -410,6 +410,11 @@ func runC02(t *T) {
 		}
 	} else {
 		init := uniqueData(0, []int{10, 0, 1, 100, 513}[c.Draw(5)])
+		if c.Chance(1, 25) {
+			// a big file (beyond a MiB): size-dependent paths - capacity steps, "release the memory of a large
+			// truncated file", chunked copies - only exist up here
+			init = uniqueData(0, 1<<20+70000)
+		}
 		for _, fs := range []hackpadfs.FS{sut, ref} {
 			must(t, hackpadfs.WriteFullFile(fs, "f", init, 0644))
 		}
